@@ -1,6 +1,6 @@
 (** * C15 — Quoted text is shown verbatim, draws nothing, and displaces nothing.
-    Statements only; proofs in Theory/QuoteTheory.v. *)
-Require Import SB.Model.Base SB.Model.Unicode SB.Model.Geom SB.Model.Text SB.Theory.QuoteTheory.
+    Statements only; proofs in Theory/QuoteTheory.v and Theory/QuoteMany.v. *)
+Require Import SB.Model.Base SB.Model.Unicode SB.Model.Geom SB.Model.Text SB.Theory.QuoteTheory SB.Theory.QuoteMany.
 
 (** A line [pre "body" post] (no quote in [pre] and [post]; no quote and no backslash in
     [body]; any other characters, multi-byte and double-width included): the quoted text is
@@ -40,11 +40,33 @@ Theorem C15_blank_width_is_region_width :
   forall l, escaped_columns (row_of_line l) = Z.of_nat (length (row_of_line l)).
 Proof. exact escaped_columns_row. Qed.
 
-(** The general shape of the statement (any number of segments on the row); proved above for
-    one segment per row, decided for 0..3 segments by the correspondence and the oracle. *)
-Definition C15_full : Prop :=
-  forall y l, exists texts out,
-    escape_line y (row_of_line l) = Ok (texts, out) /\ length out = length (row_of_line l).
+(** Any number of quoted segments on a line: A1 q B1 q A2 q B2 q ... An q Bn q D, q the double
+    quote ([build segs D]),
+    with quote-free [Ai] and [D] and bodies without quote or backslash.  Every body is lifted
+    out verbatim, in order, at the column of its opening quote; what goes on to be drawn has the
+    cells of the line in which every quoted region, quotes included, is overwritten by as many
+    blanks as the region has columns ([blank_text]). *)
+Theorem C15_any_number_of_segments :
+  forall y segs post, Forall good_seg segs -> quote_free post ->
+    escape_line y (row_of_line (build segs post))
+    = Ok (texts_at y 0 (map rowseg segs), blanked (map rowseg segs) (row_of_line post)).
+Proof. exact quoted_line_many. Qed.
+Check C15_any_number_of_segments :
+  forall y segs post, Forall good_seg segs -> quote_free post ->
+    escape_line y (row_of_line (build segs post))
+    = Ok (texts_at y 0 (map rowseg segs), blanked (map rowseg segs) (row_of_line post)).
+Theorem C15_everything_else_as_if_blanked :
+  forall y segs post, Forall good_seg segs -> quote_free post ->
+    exists texts out, escape_line y (row_of_line (build segs post)) = Ok (texts, out)
+      /\ map snd texts = map (fun s => row_of_line (snd s)) segs
+      /\ cells_of_row y 0 out = cells_of_row y 0 (row_of_line (blank_text segs post)).
+Proof. exact quoted_line_many_cells. Qed.
+(** bodies that contain a backslash (the escaped quote) and unbalanced quotes are decided by
+    the correspondence and the oracle of this check. *)
+Example C15_nonvacuous_two_segments :
+  escape_line 0 (row_of_line (build [([97], [98; 19968]); ([45], [99])] [124]))
+  = Ok ([(C 1 0, [98; 19968; 0]); (C 7 0, [99])], [97; 32; 32; 32; 32; 32; 45; 32; 32; 32; 124]).
+Proof. vm_compute. reflexivity. Qed.
 
 Example C15_nonvacuous :
   escape_line 0 (row_of_line [97; 34; 19968; 45; 34; 32; 124]) = Ok ([(C 1 0, [19968; 0; 45])], [97; 32; 32; 32; 32; 32; 32; 124]).
